@@ -12,7 +12,8 @@ RULE = ('cases = representative pipelines over user steps and built-ins (filter,
         'UniqueKeyError, SourceLoadError, an already wrapped ProcessorError), observed through results(), process() and datastream(); '
         'plus failing sources (before and after the inference sample) and a failing package phase; non-trivial = always; '
         'distinct = (pipeline, fault coordinates)'
-        '; round 7: a second attempt of the same Flow object after the caught failure must fail the same way')
+        '; round 7: a second attempt of the same Flow object after the caught failure must fail the same way'
+        '; round 8: items that are not rows (a list or tuple among dicts, a string, a number, None) inside and past the inference sample')
 TRUSTED = ['Coq 8.16.1 kernel + vm_compute', 'harness/tracelib.py probes and fault injector (user-level raising steps)',
            'the event semantics of generator chains (validated by trace correspondence)']
 ASSUMES = ['row_func raising inside a parallelize worker is printed and the row delivered unprocessed (documented behaviour of work()); reported here as a finding if it loses the error']
